@@ -55,6 +55,12 @@ class Msg:
         self.obs = None
         sid = stream[3]
         body = bytes(((sid * 37 + index * 11 + i * 3) % 251) + 1 for i in range(nbytes - 2))
+        if (sid + index) % 5 == 3:
+            body = b"\xff" * len(body)          # data that looks like padding / like 'not available' (and, with counter 7 and
+        elif (sid + index) % 5 == 4:            # frame 31, a frame that is 0xFF throughout)
+            body = bytes(len(body))
+        elif (sid + index) % 5 == 2 and len(body) > 8:
+            body = body[:-8] + b"\xff" * 8
         self.payload = HEAD + body
         self.seq = (index % 8) if seq is None else (seq % 8)
         self.nframes = 1 if nbytes <= 6 else 1 + (nbytes - 6 + 6) // 7
